@@ -722,3 +722,26 @@ func (g *Graph) gateOf(v int) []int {
 	sort.Slice(out, func(i, j int) bool { return g.Dominates(out[i], out[j]) && out[i] != out[j] })
 	return out
 }
+
+// aliasesOf returns obj together with every local variable whose value reaches it through plain copies (`a = b`,
+// `a, c = b, d`, `var a T = b`): the temporaries that stand for a helper's results after it was expanded in place, or a
+// value handed on under another name. Rules that ask "where does this value come from" ask it of the whole set.
+func (f *Func) aliasesOf(obj types.Object) map[types.Object]bool {
+	set := map[types.Object]bool{obj: true}
+	ws := Writes(f.Body, true)
+	for changed := true; changed; {
+		changed = false
+		for _, w := range ws {
+			if w.RHS == nil || !set[f.ObjOf(w.LHS)] {
+				continue
+			}
+			if id, ok := ast.Unparen(w.RHS).(*ast.Ident); ok {
+				if v, isVar := f.ObjOf(id).(*types.Var); isVar && !v.IsField() && !set[v] {
+					set[v] = true
+					changed = true
+				}
+			}
+		}
+	}
+	return set
+}
